@@ -34,6 +34,7 @@ Proof.
     destruct (d_anc st); inv_pair H; reflexivity.
   - (* CreateOrUpdateFile *)
     assert (Hne : p <> p0) by congruence.
+    unfold open_for_write, write_chunk, stamp_file in H.
     repeat (break_match_hyp H; try discriminate); inv_pair H; dsimpl;
       rewrite ?fget_fset_ne by auto; rewrite ?fget_fset_ne by auto; rewrite ?fget_fset_ne by auto; try reflexivity.
   - (* CreateSymlink *)
@@ -57,7 +58,7 @@ Qed.
 Lemma doer_exec_err_fs fl st c st' e :
   doer_exec fl st c = (st', Some e) -> d_fs st' = d_fs st.
 Proof.
-  intros H. destruct c; cbn [doer_exec] in *; try discriminate;
+  intros H. destruct c; cbn [doer_exec] in *; try discriminate; unfold open_for_write in H;
     repeat (break_match_hyp H; try discriminate); inv_pair H; dsimpl; reflexivity.
 Qed.
 
